@@ -189,6 +189,24 @@ def r4_frontends(ctx):
     r.inst("Visitor for ParsedValueSeed", "callbacks: " + ", ".join(sorted(have)))
     for m in sorted(need - have):
         r.viol("R4:visitor#" + m, "Visitor for ParsedValueSeed lacks %s: a format that delivers this event would be rejected while another accepts the same data" % m)
+    # the JSON5 front-end is a third-party crate whose string decoding is part of "the same data gives the same text": the locked source is
+    # read (py/depsrc.py) for the one expression known to be wrong in 0.4.x - the join of a `\\uD8xx\\uDCxx` surrogate pair
+    try:
+        import depsrc
+        ver_, d_ = depsrc.crate_dir(ctx.repo, "json5")
+        if d_ is not None:
+            src_ = open(d_ + "/src/de.rs").read()
+            m_ = re.search(r"let rc = ([^;]*0x1_?0000[^;]*);", src_)
+            expr_ = re.sub(r"\s+", "", m_.group(1)) if m_ else None
+            if expr_ is None:
+                r.inst("json5 %s: surrogate pairs" % ver_, "the join expression of 0.4.x is not in this version's source (not inspected further)")
+            elif re.match(r"^\(\(\(rc1-0xD800\)<<10\)\|\(rc2-0xDC00\)\)\+0x1_?0000$", expr_) or re.match(r"^0x1_?0000\+\(", expr_):
+                r.inst("json5 %s: surrogate pairs" % ver_, "((hi - 0xD800) << 10 | (lo - 0xDC00)) + 0x10000")
+            else:
+                r.viol("R4:json5#surrogate-join", "json5 %s joins an escaped surrogate pair as `%s`: `+` binds tighter than `|`, so every escaped code point from U+20000 up loses its plane "
+                       "(`\\uD842\\uDFB7` decodes to U+10BB7 instead of U+20BB7) - the same file read as JSON is correct" % (ver_, m_.group(1).strip()), file="Cargo.lock")
+    except Exception:  # noqa: BLE001
+        pass
     # serde_json's streaming deserializer stops after the first value: only `end()` makes what follows (a second object from a botched
     # merge, stray text) an error, as it is for the JSON5 and YAML loaders, which read the whole input - MIR: the call is on every path
     # from the deserialization to an Ok return
